@@ -14,6 +14,44 @@ def parseKeys (s : String) : Option (List (List Nat)) := parseList? parseNatList
 
 def showNats (l : List Nat) : String := showList toString l
 
+
+/-- EBlk = [bu, useTemp(0/1), tempC, env] -/
+def parseEBlk (s : String) : Option EBlk := do
+  let xs ← parseRatList? s
+  match xs with
+  | [bu, ut, t, e] => if e.den = 1 ∧ 0 ≤ e.num then some ⟨bu, ut != 0, t, e.num.toNat⟩ else none
+  | _ => none
+
+/-- MBlk = [xs, env, valid(0/1)] -/
+def parseMBlk (s : String) : Option MBlk := do
+  let xs ← parseNatList? s
+  match xs with
+  | [x, e, v] => some ⟨x, e, v != 0⟩
+  | _ => none
+
+/-- CompT = [declared(0/1), n, vf, temp] -/
+def parseCompT (s : String) : Option CompT := do
+  let xs ← parseRatList? s
+  match xs with
+  | [d, n, vf, t] => some ⟨d != 0, n, vf, t⟩
+  | _ => none
+
+/-- TBlk = [valid(0/1), vol, wparam, [comp…]] -/
+def parseTBlk (s : String) : Option TBlk := do
+  let parts ← splitTop s
+  match parts with
+  | [v, vol, wp, cs] => do
+    let v ← parseRat? v
+    let vol ← parseRat? vol
+    let wp ← parseRat? wp
+    let cs ← parseList? parseCompT cs
+    some ⟨v != 0, vol, wp, cs⟩
+  | _ => none
+
+def showGroupsIdx (gs : List (List Nat × List (Nat × List Nat))) : String :=
+  showList (fun (g : List Nat × List (Nat × List Nat)) =>
+    "[" ++ showNats g.1 ++ "," ++ showNats (g.2.map (·.1)) ++ "]") gs
+
 def answer : List String → String
   | ["l2n", l] => match parseNatList? l with
       | some l => showOpt toString (labelToNumber l) | none => "bad-op"
@@ -49,6 +87,51 @@ def answer : List String → String
       | some p, some bs, some names =>
         if bs.length ≠ names.length then "bad-op" else showOpt toString (medianIndex p (bs.zip names))
       | _, _, _ => "bad-op"
+  | ["bubounds", bs] => match parseRatList? bs with
+      | some bs => showOpt (showList showRat) (setBuGroupBounds bs) | none => "bad-op"
+  | ["tbounds", bs] => match parseRatList? bs with
+      | some bs => showOpt (showList showRat) (setTempGroupBounds bs) | none => "bad-op"
+  | ["updenv", en, bb, tb, bs] => match parseBool? en, parseRatList? bb, parseRatList? tb, parseList? parseEBlk bs with
+      | some en, some bb, some tb, some bs => showOpt showNats (updateEnvironmentGroups en bb tb bs)
+      | _, _, _, _ => "bad-op"
+  | ["eligible", f, spec] => match parseNat? f, parseNatList? spec with
+      | some f, some spec => showBool (eligible f spec) | _, _ => "bad-op"
+  | ["mkgroups", ck, bk] => match parseKeys ck, parseKeys bk with
+      | some ck, some bk =>
+        let core := (List.range ck.length).zip ck
+        let bp := ((List.range bk.length).map (· + ck.length)).zip bk
+        showGroupsIdx (makeGroups (·.2) core bp)
+      | _, _ => "bad-op"
+  | ["mgr", bs, pg] => match parseList? parseMBlk bs, parseKeys pg with
+      | some bs, some pg =>
+        let pregen := fun k => pg.contains k
+        showList showNats (representedKeys pregen bs) ++ " " ++ showList showNats (unrepresentedKeys pregen bs) ++ " " ++
+          showNats ((modifyUnrepresented pregen bs).map (·.env))
+      | _, _ => "bad-op"
+  | ["nextxs", n, al] => match parseNat? n, parseKeys al with
+      | some n, some al => showOpt showNats (nextAvailableXsTypes n al) | _, _ => "bad-op"
+  | ["ctemp", ws, ms, ts] => match parseRatList? ws, parseRatList? ms, parseRatList? ts with
+      | some ws, some ms, some ts =>
+        if ws.length ≠ ms.length ∨ ws.length ≠ ts.length then "bad-op" else showOpt showRat (componentTemperature ws ms ts)
+      | _, _, _ => "bad-op"
+  | ["ntemp", p, bs] => match parseBool? p, parseList? parseTBlk bs with
+      | some p, some bs => showRat (avgNuclideTemperature p bs) | _, _ => "bad-op"
+  | ["btemp", vol, cs] => match parseRat? vol, parseList? parseCompT cs with
+      | some vol, some cs => showRat (blockNuclideTemperature vol cs) | _, _ => "bad-op"
+  | ["mtemp", vol, cs] => match parseRat? vol, parseList? parseCompT cs with
+      | some vol, some cs => showRat (medianNuclideTemperature ⟨true, vol, 0, cs⟩) | _, _ => "bad-op"
+  | ["areaavg", bw, ar, xs] => match parseRatList? bw, parseRatList? ar, parseRatList? xs with
+      | some bw, some ar, some xs =>
+        if bw.length ≠ ar.length ∨ bw.length ≠ xs.length then "bad-op" else showRat (areaAverage bw ar xs)
+      | _, _, _ => "bad-op"
+  | ["modids", al, reps, bs] => match parseKeys al, parseKeys reps, parseList? parseMBlk bs with
+      | some al, some reps, some bs => match modifiedIds al reps bs with
+        | none => "reject"
+        | some (_, acc) => showList (fun (p : List Nat × List Nat) => "[" ++ showNats p.1 ++ "," ++ showNats p.2 ++ "]") acc
+      | _, _, _ => "bad-op"
+  | ["similar", abc, fls] => match parseBool? abc, parseKeys fls with
+      | some abc, some fls => showOpt showBool (performAverageByComponent abc fls)
+      | _, _ => "bad-op"
   | _ => "bad-op"
 
 def main : IO Unit := loop answer
